@@ -536,7 +536,11 @@ def r03_5(ctx):
                     + ' - it must go through the checked constructor', construct=f'{fd.qname}::funnel')
     for label, text, excs in (('valid', 'note_on channel=3 note=5', None), ('velocity 200', 'note_on velocity=200', ('ValueError',)),
                               ('attribute of another type', 'note_on pitch=0', ('ValueError',)), ('unknown type', 'no_such_message', ('ValueError',)),
-                              ('a constructor parameter as a word', 'note_on skip_checks=1 velocity=200', ('ValueError',))):
+                              ('a constructor parameter as a word', 'note_on skip_checks=1 velocity=200', ('ValueError',)),
+                              # the text of an integer attribute is an integer: nothing is rounded, truncated or pulled back into range
+                              ('a fraction for an integer', 'note_on note=60.5', ('ValueError',)), ('just beyond the limit', 'note_on note=127.9', ('ValueError',)),
+                              ('just below zero', 'note_on channel=-0.5', ('ValueError',)), ('infinity', 'note_on note=inf', ('ValueError',)),
+                              ('an exponent', 'note_on note=1e1', ('ValueError',))):
         outs = ai.explore(lambda: ai.call_function(fs, [ClassRef(base), text], {}))
         ctx.call_sites += 1
         if excs is None:
